@@ -65,13 +65,14 @@ def solver_case(rep, spec, index):
         comps_m += [gen.to_molar_exact(wq, fc.mix), gen.to_weight_exact(mq, fc.mix)]
     case = dict(fc.describe(), index=index, level="solver", x_molar=xm.p)
     pv = fc.pv
+    as_tuple = index % 5 == 0  # the list of compositions handed over as a tuple
 
     def run(c, cs):
         kw = dict(fc.kwargs(), composition=c)
         j = pv.calculate_partial_fluxes(**kw)
         y = pv.calculate_permeate_composition(fc.t_feed, c, fc.precision, fc.tp, fc.pp, fc.model)
         sf = pv.calculate_separation_factor(fc.t_feed, c, fc.tp, fc.pp, fc.precision, fc.model)
-        curve = pv.ideal_diffusion_curve(fc.t_feed, cs, fc.tp, fc.pp, fc.precision, fc.model)
+        curve = pv.ideal_diffusion_curve(fc.t_feed, tuple(cs) if as_tuple else cs, fc.tp, fc.pp, fc.precision, fc.model)
         return {"j": (float(j[0]), float(j[1])), "y": y.p, "sf": float(sf), "curve": curve}
 
     sa, a = _guard(lambda: run(fc.comp, comps_w))
